@@ -177,7 +177,7 @@ PROPS["C06"] = {
                 {"driver": "ptlife", "trace": "Trace_Point"}],       # both encoders (and XBytes / IsYOdd) on a long-lived object after every kind of operation
     "require_classes": {"quick": ["dec_ok_cmp", "dec_ok_unc", "dec_ok_inf", "dec_bad_len", "dec_bad_prefix", "dec_noncanon_x", "dec_noncanon_y",
                                   "dec_offcurve", "dec_nonresidue", "dec_hybrid", "dec_recv_uninit", "dec_recv_kept", "dec_fresh", "coords_ok", "coords_bad", "life_reject_cmp", "life_decode_id",
-                                  "rec_ok_low", "rec_ok_high", "rec_overflow", "rec_bad_id", "rec_nonresidue"]},
+                                  "rec_ok_low", "rec_ok_high", "rec_overflow", "rec_overflow_low_limbs_pass", "rec_bad_id", "rec_nonresidue"]},
     "assumptions": ["full-size byte strings are sampled per class (exact oracle); all byte strings are enumerated only on the miniature curves"],
 }
 
@@ -303,7 +303,7 @@ PROPS["C11"] = {
     "exhaustive": _ECDSA_A,
     "drivers": [{"driver": "recover", "trace": "Trace_Ecdsa"},
                 {"driver": "recover", "trace": "Trace_Ecdsa", "goarch": "386", "tiers": ("thorough",)}],
-    "require_classes": {"quick": ["rec_v_ge4", "rec_hi_ok", "rec_hi_overflow", "rec_not_x", "rec_q_inf", "rec_rs_zero", "rec_ok", "accept", "digest_ge_n", "digest_long", "digest_huge", "kept_key", "sig_stable"]},
+    "require_classes": {"quick": ["rec_v_ge4", "rec_hi_ok", "rec_hi_overflow", "rec_not_x", "rec_q_inf", "rec_rs_zero", "rec_ok", "accept", "high_s_acc", "high_s_rej", "digest_ge_n", "digest_long", "digest_huge", "kept_key", "sig_stable"]},
     "assumptions": ["full-size inputs are constructed per corner class and decided by an exact oracle"],
 }
 
